@@ -4,6 +4,7 @@
    the mode at hand, split_path = the last stage of do_tokenize for mode A/B, split_into = MorphemeList::split_into. *)
 From Coq Require Import List NArith Bool.
 From SudachiVerif Require Import Model.Split Proofs.SplitProofs.
+From SudachiVerif Require Import Model.SplitLists Proofs.SplitListsProofs.
 Import ListNotations.
 Open Scope N_scope.
 
@@ -176,3 +177,81 @@ Proof.
            split_into_exact_from_source C09_writer_order C09_reader_order C09_len_thresholds C09_facts ds cs nsp po Hc Hs a t n us out).
 Qed.
 Print Assumptions C09_split_into_exact_from_source.
+
+(* ---- split_into between result lists (sudachi/src/analysis/mlist.rs, morpheme.rs): lists as values with their dictionaries ---- *)
+
+(* extracted on every run: ResultNode::split gets its lexicon, its field request and its input text from `self` -- the list
+   that holds the token --; the target list is only given the source's input part (assign_input) and appended to;
+   Morpheme::split_into is MorphemeList::split_into on (the morpheme's list, its index) *)
+Fact C09_split_into_sources : sources_ok = true.
+Proof. vm_compute. reflexivity. Qed.
+
+(* split_into between lists is Split.split_into run with the dictionary and text of the list that holds the token; the target
+   contributes only its prior nodes (kept in front) and keeps its own dictionary *)
+Theorem C09_split_into_lists_spec :
+  forall m src idx out, split_into_lists m src idx out = split_into_spec m src idx out.
+Proof. exact (split_into_lists_spec C09_split_into_sources). Qed.
+Print Assumptions C09_split_into_lists_spec.
+
+(* non-interference: two targets with arbitrary dictionaries, input parts and prior contents get the same answer and the same
+   parts appended *)
+Theorem C09_split_into_noninterference :
+  forall m src idx out out',
+    match split_into_lists m src idx out, split_into_lists m src idx out' with
+    | None, None => True
+    | Some (b, r), Some (b', r') =>
+        b = b' /\
+        exists l, ml_nodes r = ml_nodes out ++ l /\ ml_nodes r' = ml_nodes out' ++ l /\
+                  ml_dict r = ml_dict out /\ ml_dict r' = ml_dict out' /\
+                  (if b then ml_text r = ml_text src /\ ml_subset r = ml_subset src /\
+                             ml_text r' = ml_text src /\ ml_subset r' = ml_subset src
+                   else r = out /\ r' = out' /\ l = [])
+    | _, _ => False
+    end.
+Proof. exact (split_into_noninterference C09_split_into_sources). Qed.
+Print Assumptions C09_split_into_noninterference.
+
+(* the answer and the parts are a function of (token, mode, the token's own dictionary and input) *)
+Theorem C09_split_into_is_function_of_source :
+  forall m src idx out n,
+    nth_error (ml_nodes src) idx = Some n ->
+    match split_into_lists m src idx out, parts_of (ml_dict src) (ml_text src) m n with
+    | None, None => True
+    | Some (b, r), Some (b', l) => b = b' /\ ml_nodes r = ml_nodes out ++ (if b then l else [])
+    | _, _ => False
+    end.
+Proof. exact (split_into_is_function_of_source C09_split_into_sources). Qed.
+Print Assumptions C09_split_into_is_function_of_source.
+
+(* ---- Python: Dictionary.create(mode=C, fields=F) + Morpheme.split(X) (python/src/dictionary.rs parse_field_subset) ---- *)
+From SudachiVerif Require Import Model.PyProjection Proofs.PyProjectionProofs Proofs.SplitPyFields.
+
+(* fact obligations, on the tables regenerated on this run: the whole name -> flag table is the documented one; in particular
+   split_a / split_b / word_structure / synonym_group_id map to their own InfoSubset flags, one name per flag; normalize's
+   closure rules load what every requested accessor reads, and head_word_length with either split list *)
+Fact C09_py_facts : py_facts_ok.
+Proof. unfold py_facts_ok. repeat split; vm_compute; reflexivity. Qed.
+Fact C09_split_field_names : split_field_names_ok = true.
+Proof. vm_compute. reflexivity. Qed.
+Fact C09_normalize_closure : closure_ok = true.
+Proof. vm_compute. reflexivity. Qed.
+Fact C09_split_loads_head_word_length : hw_closure_ok = true.
+Proof. vm_compute. reflexivity. Qed.
+
+(* for every fields argument that names split_a (split_b), and for no fields argument, with any surface projection: the field
+   set the tokenizer loads contains SPLIT_A (SPLIT_B) and HEAD_WORD_LENGTH, and every word info loaded under it reports the
+   split list of X and head_word_length exactly as the full word info -- the values ld_units / ld_hw of the theorems above are
+   read from -- does; so Morpheme.split(X) of a mode-C token splits into exactly the declared units *)
+Theorem C09_python_fields_load_split_list :
+  forall (fields : option (list String.string)) (k : option pkind) (a : bool) (m : N),
+    parse_field_subset fields = Some m ->
+    match fields with None => True | Some names => In (split_field a) names end ->
+    let L := loaded_subset m k in
+    N.testbit L (acc_flag (split_acc a)) = true /\ N.testbit L (acc_flag A_hwlen) = true /\
+    forall lx has_syn wid iA,
+      lex_ok lx -> get_word_info lx has_syn wid ALL = Some iA ->
+      exists iS, get_word_info lx has_syn wid L = Some iS /\
+                 accessor (split_acc a) iS = accessor (split_acc a) iA /\
+                 accessor A_hwlen iS = accessor A_hwlen iA.
+Proof. exact (python_fields_load_split_list C09_py_facts C09_reader_order C09_normalize_closure C09_split_loads_head_word_length). Qed.
+Print Assumptions C09_python_fields_load_split_list.
